@@ -22,7 +22,8 @@ META = {
     "rule": "roots: fermionic arrays n<=3 and already-fused arrays that picked up pending signs after the fuse (all symmetries, every direction pattern, even and odd charge with a label, sparsity patterns) x pending-sign tables "
     "(every subset of the stored sectors for n<=2, probes for n=3), each paired with a harness-made synchronised twin; transitions: every catalogue operation on both "
     "members (raw-storage accessors get_params/set_params/apply_to_arrays excluded), plus mixed lazy/synced operand combinations for binary operations; decompositions are "
-    "compared on gauge-invariant observables (factor structure, singular / eigen values, reconstructed product). non-trivial = product state whose lazy member still has pending signs",
+    "compared on gauge-invariant observables (factor structure, singular / eigen values, reconstructed product); alias probe: after every operation on a lazy array, the result is synchronised in place and the source "
+    "observed, and the source is synchronised in place and the result observed (depth 1 in quick, every depth in thorough). non-trivial = product state whose lazy member still has pending signs",
     "bounds": {"quick": "depth 2 from every root (core menu at depth 2)", "thorough": "depth 3 under a reported state cap"},
     "assumptions": [
         "value of an array = harness embedding with the pending signs applied by the harness (never by phase_sync)",
@@ -164,6 +165,44 @@ def compare_op(op, L, S, fails, st, where):
     return rl, rs
 
 
+def alias_failures(op, L, S, rs, fails, st, where):
+    """a program may keep an array and what it derived from it, and synchronise either of them in place at any time
+    (by the property that never changes a value): the other one must still show what the synchronised run shows"""
+    import symmray as sr
+
+    if not L.phases:
+        return
+    try:
+        # (1) synchronise the derived arrays in place, then look at the source
+        Lc = hcopy(L)
+        with np.errstate(all="ignore"):
+            r = op.fn(Lc)
+        kids = [o for o in result_objects(r) if isinstance(o, sr.FermionicArray) and o is not Lc]
+        if not kids:
+            return
+        for o in kids:
+            o.phase_sync(inplace=True)
+        if st is not None:
+            st.transitions += 1 + len(kids)
+        if not obs_equal(arr_obs(Lc), arr_obs(S), 1e-12):
+            fails.append((f"C09/{family(op)}/source-changed-by-sync-of-result", f"{where}: {op.name}: synchronising the result in place changed the value of the array it was derived from"))
+        # (2) synchronise the source in place, then look at the derived arrays
+        Lc = hcopy(L)
+        with np.errstate(all="ignore"):
+            r = op.fn(Lc)
+        Lc.phase_sync(inplace=True)
+        if st is not None:
+            st.transitions += 2
+        if "linalg" in op.tags:
+            ok, why = linalg_equal(linalg_obs(op.name, r), linalg_obs(op.name, rs))
+        else:
+            ok, why = obs_equal(arr_obs(r), arr_obs(rs), 1e-12), "result"
+        if not ok:
+            fails.append((f"C09/{family(op)}/result-changed-by-sync-of-source", f"{where}: {op.name}: synchronising the source in place afterwards changed the {why}"))
+    except Exception as e:
+        fails.append((f"C09/{family(op)}/alias-probe-raised-{type(e).__name__}", f"{where}: {op.name}: {e}"))
+
+
 def mixed_failures(L, S, fails, st):
     """binary operations with every lazy/synced combination of the two operands"""
     import symmray as sr
@@ -218,7 +257,7 @@ def sync_laws(L, S, fails, st):
         fails.append((f"C09/phase_sync/raised-{type(e).__name__}", str(e)))
 
 
-def trace_failures(root, trace=None, st=None, depth_max=2, cap=4000):
+def trace_failures(root, trace=None, st=None, depth_max=2, cap=4000, alias_all=False):
     """BFS from one root pair.  trace: replay one path only."""
     fails = []
     L = build(root)
@@ -245,6 +284,8 @@ def trace_failures(root, trace=None, st=None, depth_max=2, cap=4000):
                 res = compare_op(op, L, S, fails, st, where)
                 if st is not None:
                     st.evaluations += 1
+                if res is not None and (depth == 1 or alias_all) and L.fermionic:
+                    alias_failures(op, L, S, res[1], fails, st, where)
                 if res is None or depth == depth_max:
                     continue
                 rl, rs = res
@@ -315,7 +356,7 @@ def run_group(ctx, group):
         n = len(d["indices"])
         if slice_mod > 1 and n >= 2 and (i // nch) % slice_mod != ctx.seed % slice_mod:
             continue
-        fails, nt, nstates = trace_failures(d, st=st, depth_max=depth, cap=600 if ctx.thorough else 4000)
+        fails, nt, nstates = trace_failures(d, st=st, depth_max=depth, cap=600 if ctx.thorough else 4000, alias_all=ctx.thorough)
         st.states += nstates
         st.traces += 1
         st.nontrivial += nt
@@ -330,4 +371,4 @@ def run_group(ctx, group):
 
 
 def replay(ctx, case):
-    return trace_failures(case["root"], depth_max=3, cap=600)[0]
+    return trace_failures(case["root"], depth_max=3, cap=600, alias_all=True)[0]
